@@ -25,12 +25,12 @@ def orc(oracle, profile, q, t, **kw):
 
 
 PROPS = {
-    "C01": dict(streams=[diff("mixed", 3000, 60000), diff("extreme", 300, 6000), diff("twins", 500, 8000), diff("subms", 300, 4000), diff("func", 1000, 15000)], rule=RULE, trusted_base=COMMON_TB),
+    "C01": dict(streams=[diff("mixed", 3000, 60000), diff("late", 200, 4000), diff("extreme", 300, 6000), diff("twins", 500, 8000), diff("subms", 300, 4000), diff("func", 1000, 15000)], rule=RULE, trusted_base=COMMON_TB),
     "C02": dict(streams=[diff("selector", 3000, 40000), orc("procs", "selector", 100, 1500), diff("twins", 600, 8000), orc("kernel", "kernel", 2000, 40000), orc("sequence", "sequence", 150, 2000)], rule=RULE + "; kernel = selectPoint over Prometheus' real MemoizedSeriesIterator vs the Lean iterator model and the declarative selection, on irregular series with gaps and staleness markers", trusted_base=COMMON_TB),
     "C03": dict(streams=[diff("rangefn", 3000, 40000), orc("kernel", "kernel", 2000, 40000)], rule=RULE, trusted_base=COMMON_TB),
     "C04": dict(streams=[diff("agg", 3000, 40000), diff("kagg", 300, 5000), diff("aggparam", 400, 6000), orc("kernel", "kernel", 2000, 40000)], rule=RULE, trusted_base=COMMON_TB),
     "C05": dict(streams=[diff("binary", 3000, 40000), orc("kernel", "kernel", 2000, 40000)], rule=RULE, trusted_base=COMMON_TB),
-    "C06": dict(streams=[diff("func", 3000, 40000), diff("twins", 400, 6000), diff("hist", 400, 6000)], rule=RULE, trusted_base=COMMON_TB),
+    "C06": dict(streams=[diff("func", 3000, 40000), diff("late", 300, 5000), diff("twins", 400, 6000), diff("hist", 400, 6000)], rule=RULE, trusted_base=COMMON_TB),
     "C07": dict(streams=[orc("rangeinst", "mixed", 400, 6000), orc("rangeinst", "rangefn", 200, 3000), orc("rangeinst", "func", 300, 4000)], rule=RULE, trusted_base=COMMON_TB),
     "C08": dict(streams=[orc("fallback", "fallback", 0, 0)], rule="exhaustive enumeration: every function of parser.Functions (full and minimal arity), every aggregation and binary/set operator and modifier, subqueries, string literals, range vectors, each in every syntactic position x instant/range x fallback on/off", trusted_base=COMMON_TB, exhaustive=True),
     "C09": dict(streams=[orc("opt", "optx", 1500, 30000), orc("opt", "mixed", 300, 6000), orc("opt", "twins", 300, 4000)], rule=RULE + "; optx = selectors of <=2 matchers over the 2-key x 4-type x 3-value alphabet (incl. repeated keys) in 18 positional templates over a dataset with every label-presence combination", trusted_base=COMMON_TB),
@@ -42,7 +42,7 @@ PROPS = {
     "C15": dict(streams=[orc("faults", "mixed", 200, 3000)], rule=RULE + "; an error injected at error-capable storage events (Querier, Select, SeriesSet.Next/Err, Iterator Seek/Next/Err)", trusted_base=COMMON_TB),
     "C16": dict(streams=[orc("hints", "mixed", 500, 8000), orc("hints", "twins", 400, 6000), orc("hints", "hist", 300, 4000), orc("hints", "func", 300, 4000)], rule=RULE, trusted_base=COMMON_TB),
     "C17": dict(streams=[orc("lifecycle", "mixed", 300, 5000), orc("lifecycle", "incl", 150, 2500), orc("lifecycle", "binary", 200, 4000), orc("lifecycle", "rangefn", 150, 2000), orc("lifecycle", "func", 200, 3000), orc("lifecycle", "hist", 150, 2000), orc("faults", "mixed", 100, 1500), orc("cancel", "mixed", 40, 600), orc("panic", "mixed", 25, 300)], rule=RULE, trusted_base=COMMON_TB),
-    "C18": dict(streams=[diff("mixed", 1500, 30000), diff("extreme", 300, 5000), diff("func", 800, 10000), orc("procs", "mixed", 60, 600), orc("lifecycle", "hist", 150, 2000), diff("hist", 300, 4000), orc("kernel", "kco", 300, 4000)], rule=RULE + "; the verif-tag wrapper checks the contract at every Series/Next of every operator", trusted_base=COMMON_TB),
+    "C18": dict(streams=[diff("mixed", 1500, 30000), diff("extreme", 300, 5000), diff("func", 800, 10000), orc("procs", "mixed", 60, 600), orc("lifecycle", "hist", 150, 2000), diff("hist", 300, 4000), orc("kernel", "kco", 300, 4000), diff("late", 200, 3000), orc("dist", "dist", 200, 3000, fields=["other", "crash", "eng_vs_model", "contract"])], rule=RULE + "; the verif-tag wrapper checks the contract at every Series/Next of every operator", trusted_base=COMMON_TB),
     "C19": dict(streams=[diff("mixed", 1500, 30000), diff("extreme", 600, 10000), diff("binary", 600, 10000), diff("func", 1500, 20000), diff("hist", 400, 6000)], rule=RULE, trusted_base=COMMON_TB),
     "C20": dict(streams=[orc("sequence", "sequence", 250, 3000), orc("lifecycle", "hist", 150, 2000)], rule=RULE + "; sequences of 2-6 queries run twice on one engine interleaved with appends, every kept result re-checked after every later operation", trusted_base=COMMON_TB),
 }
